@@ -64,6 +64,7 @@ def run(ctx):
         if cfg["T"] >= 4:
             mats = ctx.rng.sample(mats, 8000)
             ctx.exhaustive = False
+        cfg = dict(cfg, salt=ctx.seed)
         traces = C.run_config(cfg, mats)
         judge(ctx, cfg, traces)
     ctx.notes["explanation"] = ("TLC exhaustive on CtcDecoder with the LM part per config (invariants %s); every matrix decoded by the real "
